@@ -11,10 +11,16 @@
 EXTENDS Registry, Json
 CONSTANTS Names, Universe       \* Universe: "small" | "full"
 PrefixesDef == <<"p/">>
-Bare == {"A", "B"}
+\* Universe "chain": four names, single adds of roots and children only -- inheritance chains of depth 4 whose top or
+\* middle is re-registered with another parent (what three names cannot express)
+IsChain == Universe = "chain"
+Bare == IF IsChain THEN {"A", "B", "D"} ELSE {"A", "B"}
 D(ext, a, z, unk, inc, comp, usec) == [Leaf EXCEPT !.ext = ext, !.a = a, !.z = z, !.unk = unk, !.inc = inc,
                                                     !.incpos = IF inc = "" THEN "" ELSE "body", !.comp = comp, !.usec = usec]
 Descs ==
+  IF IsChain THEN {D("", "def", FALSE, FALSE, "", FALSE, FALSE)} \cup {D(p, "super", FALSE, FALSE, "", FALSE, FALSE) : p \in Bare}
+                \cup {D(p, "none", FALSE, FALSE, "", FALSE, FALSE) : p \in Bare}
+  ELSE
   {D("", "def", FALSE, FALSE, "", FALSE, FALSE),                 \* a root with block a
    [Leaf EXCEPT !.syn = FALSE],                                  \* syntax error
    D("", "none", FALSE, TRUE, "", FALSE, FALSE)}                 \* unknown filter
@@ -32,9 +38,10 @@ Descs ==
 SecondDescs == {d \in Descs : d.ext = "" /\ d.inc = "" /\ ~d.z} \cup {D("A", "super", FALSE, FALSE, "", FALSE, FALSE)}
 \* the root with block a again, with other literal text of the same length (only as a single add of A)
 RootV2 == [D("", "def", FALSE, FALSE, "", FALSE, FALSE) EXCEPT !.v2 = TRUE]
-Batches == {<<<<n, d>>>> : n \in Names, d \in Descs} \cup {<<<<"A", RootV2>>>>}
+Batches == IF IsChain THEN {<<<<n, d>>>> : n \in Names, d \in Descs} ELSE
+           {<<<<n, d>>>> : n \in Names, d \in Descs} \cup {<<<<"A", RootV2>>>>}
            \cup {<<<<n, d>>, <<m, e>>>> : n \in Names, d \in Descs, m \in Names, e \in SecondDescs}
-SuffixSets == {{}, {".h"}}
+SuffixSets == IF IsChain THEN {{".h"}} ELSE {{}, {".h"}}
 EndsWithH(n) == n = "C.h"
 
 VARIABLES tpls, sfx, last
